@@ -164,11 +164,13 @@ RegisterE(c) ==
           ELSE UNCHANGED <<late, lateMax>>
      /\ UNCHANGED <<att, intr, phase, reported>>
 
-InterruptE ==
+InterruptEB(budget) ==
   /\ intr' = TRUE /\ stop' = TRUE
   /\ IF stop THEN UNCHANGED <<late, lateMax>>      \* already stopping: no new budget
-             ELSE late' = 0 /\ lateMax' = W - Cardinality(Occupied)   \* idle workers may have committed to one call each
+             ELSE late' = 0 /\ lateMax' = budget
   /\ UNCHANGED <<st, att, errors, first, phase, reported>>
+\* idle workers may have committed to one call each
+InterruptE == InterruptEB(W - Cardinality(Occupied))
 
 ReturnE == phase' = "returned" /\ UNCHANGED <<st, att, errors, first, stop, late, lateMax, intr, reported>>
 RaiseE(c) == phase' = "raised" /\ reported' = c /\ UNCHANGED <<st, att, errors, first, stop, late, lateMax, intr>>
